@@ -1,4 +1,5 @@
 """C17 — printed text depends only on graph structure and printer options."""
+import os
 import random
 import re
 from common import *
@@ -92,6 +93,22 @@ def check(res):
                  {"with": al[:2000].decode("latin1")})
         if "stream-state" in st or "indent" in st:
             viol("state", "printing a whole unit left the stream or the printer changed: %s" % st, i, {})
+    # one graph printed by several threads at once (own Printer and stream each), under ThreadSanitizer: a print reads, never writes
+    texe = build_driver("threads_driver", "tsan")
+    tenv = dict(os.environ, TSAN_OPTIONS="halt_on_error=0:report_signal_unsafe=0")
+    tp = run([texe, "shared", "4" if res.tier == "quick" else "12", "3" if res.tier == "quick" else "40"], timeout=3600, env=tenv)
+    tm = re.search(r"shared-graph threads=(\d+) rounds=(\d+) bytes=(\d+) runs=(\d+) mismatches=(\d+)", tp.stdout)
+    if "WARNING: ThreadSanitizer" in tp.stderr:
+        keys.add("shared-graph:race")
+        where = re.findall(r"#\d+ (ipr::[^\n]*?) /\S+/([^\s:/]+):(\d+)", tp.stderr)
+        res.violation("shared-graph:race", "printing ONE graph from several threads (each with its own Printer and stream) is a data race: a print writes into the graph it reads",
+                      {"frames": ["%s (%s:%s)" % w for w in where[:8]], "tsan": tp.stderr[:3000], "rerun": "build/<hash>/tsan/threads_driver shared 4 3"})
+    elif tp.returncode != 0 or not tm:
+        keys.add("shared-graph:crash")
+        res.violation("shared-graph:crash", "printing one graph from several threads at once crashed", {"stderr": tp.stderr[-2500:], "stdout": tp.stdout[-500:], "rerun": "build/<hash>/tsan/threads_driver shared 4 3"})
+    elif int(tm.group(5)):
+        keys.add("shared-graph:text")
+        res.violation("shared-graph:text", "a thread printing a graph that other threads print at the same time obtained a different text", {"stdout": tp.stdout[-800:], "rerun": "build/<hash>/tsan/threads_driver shared 4 3"})
     if not all(status.values()) and not keys:
         res.violation("coq:Properties_C17.v", "proof obligation no longer checks", {"theorem_file": "Properties_C17.v", "error": coq_error_excerpt(out, "Properties_C17.v")}, no_input=True)
     with_handler = sorted(set(h["static"] for h in f["printer"]["handlers"] if h["class"].startswith(("xpr", "operator<<")) and h["static"] in f["categories"]))
